@@ -53,5 +53,7 @@ LateMemberPages == {<<[Cl(d, <<>>, <<>>, <<M("m1", <<"int">>, <<"a">>, FALSE, d)
 \* a documented member whose implementing function carries a doccomment of its own: an entry of its own after the class
 ImplDocPages == {<<Cl(D1, <<>>, <<>>, <<M("m1", <<"int">>, <<"a">>, FALSE, d2)>>, <<>>, <<>>),
                    [Fn(d3) EXCEPT !.name = "\"${m1}\"", !.args = <<"self", "a">>, !.impl = "m1"]>> : d2 \in {D0, D1, Dbul}, d3 \in {D1, Dnote, Dbul, Dfield}}
-AllPages == ImplDocPages \cup ModulePages \cup LateMemberPages \cup LongPages \cup MacroTestPages \cup TwoInnerPages \cup SinglePages \cup UndocPages \cup PairPages \cup ClassPages
+\* a module without anything to document: the page is the title and the (empty) module directive
+EmptyPages == {<<>>}
+AllPages == EmptyPages \cup ImplDocPages \cup ModulePages \cup LateMemberPages \cup LongPages \cup MacroTestPages \cup TwoInnerPages \cup SinglePages \cup UndocPages \cup PairPages \cup ClassPages
 =============================================================================
